@@ -552,7 +552,7 @@ pub fn run(a: &Args, rep: &mut Report) {
         }
     }
     let nr = a.budget(6_000, 800_000);
-    let maxlen = if a.thorough() { 20_000 } else { 5_000 };
+    let maxlen = if cfg!(miri) { 48 } else if a.thorough() { 20_000 } else { 5_000 };
     for i in 0..nr {
         // a few very long ranges in thorough mode
         let ml = if a.thorough() && i % 50_000 == 7 { 1_000_000 } else { maxlen };
